@@ -359,6 +359,37 @@ def build_body(method: str, fields: list[Any], arrays: list[Any], schema_md: dic
     return httpdrv.ipc_bytes(batch, {b"vgi_rpc.method": method.encode(), b"vgi_rpc.request_version": b"1"})
 
 
+def build_shm_body(seg: Any, method: str, fields: list[Any], arrays: list[Any], inline_fields: list[Any], schema_md: dict[bytes, bytes] | None = None) -> bytes | None:
+    """The same request routed through a client-owned shared-memory segment.
+
+    The real columns are written into ``seg`` the way a client does (``allocate_and_write``); the inline
+    request batch is the 0-row pointer batch carrying offset / length / segment name.  ``inline_fields`` is the
+    schema of that pointer batch: the request's own, or (a client that builds pointer batches from the
+    declared schema) the declared one.  Returns None when the batch does not fit the segment.
+    """
+    import pyarrow as pa
+
+    from lib import httpdrv
+
+    schema = pa.schema(fields, metadata=schema_md)
+    batch = pa.RecordBatch.from_pydict({}, schema=schema) if len(fields) == 0 else pa.RecordBatch.from_arrays(arrays, schema=schema)
+    batch.validate(full=True)
+    got = seg.allocate_and_write(batch)
+    if got is None:
+        return None
+    ischema = pa.schema(inline_fields, metadata=schema_md)
+    inline = pa.RecordBatch.from_arrays([pa.nulls(0, type=f.type) for f in ischema], schema=ischema)
+    md = {
+        b"vgi_rpc.method": method.encode(),
+        b"vgi_rpc.request_version": b"1",
+        b"vgi_rpc.shm_offset": str(got[0]).encode(),
+        b"vgi_rpc.shm_length": str(got[1]).encode(),
+        b"vgi_rpc.shm_segment_name": seg.name.encode(),
+        b"vgi_rpc.shm_segment_size": str(seg.size).encode(),
+    }
+    return httpdrv.ipc_bytes(inline, md)
+
+
 # ---------------------------------------------------------------------------
 # drivers
 # ---------------------------------------------------------------------------
@@ -485,8 +516,11 @@ def run_shard(job: dict[str, Any]) -> dict[str, Any]:
     from vgi_rpc.http import make_wsgi_app
     from vgi_rpc.rpc import RpcServer, rpc_methods
 
+    from vgi_rpc.shm import ShmSegment, _has_dictionary_columns
+
     chk = Check(PID, job["tier"], job["seed"])
     rng = random.Random(job["seed"])
+    seg = ShmSegment.create(1 << 20)
     for pi in range(job["programs"]):
         methods = [gen_method(rng, job["base"] + pi * 10 + k) for k in range(job["methods"])]
         program = {"name": f"Svc{job['base'] + pi}", "methods": methods}
@@ -522,8 +556,26 @@ def run_shard(job: dict[str, Any]) -> dict[str, Any]:
                 exp_kwargs = dict(kwargs)
                 if c.get("null_param"):
                     exp_kwargs[c["null_param"]] = None
-                for route in ("http", "pipe"):
+                for route in ("http", "pipe", "shm", "shmdecl"):
                     n0 = len(impl.inv)
+                    if route in ("shm", "shmdecl"):
+                        # pipe transport, the request batch routed through a client-owned shared-memory segment
+                        if len(c["fields"]) == 0:
+                            continue  # nothing to route: is_shm_pointer_batch needs columns to be worth a pointer
+                        import pyarrow as pa
+
+                        inline_fields = c["fields"] if route == "shm" else list(declared)
+                        if route == "shmdecl" and (c["label"] == "none" or _has_dictionary_columns(pa.schema(c["fields"])) or _has_dictionary_columns(declared)):
+                            continue  # identical to "shm" / dictionary payloads are decoded with the inline schema
+                        seg.reset()
+                        try:
+                            sbody = build_shm_body(seg, name, c["fields"], c["arrays"], inline_fields, c.get("schema_md"))
+                        except Exception as exc:  # noqa: BLE001
+                            chk.skip(f"unbuildable_shm:{c['label']}:{type(exc).__name__}")
+                            continue
+                        if sbody is None:
+                            chk.skip("shm_segment_too_small")
+                            continue
                     if route == "http":
                         resp = httpdrv.call(app, "POST", path, {"Content-Type": httpdrv.ARROW_CT}, body)
                         obs: dict[str, Any] = {"status": resp.status, "marker": resp.header(ERR_HEADER), "exc": repr(resp.exc) if resp.exc else None}
@@ -533,7 +585,7 @@ def run_shard(job: dict[str, Any]) -> dict[str, Any]:
                         except Exception as exc:  # noqa: BLE001
                             err = {"type": "unparseable_body", "message": str(exc)[:100]}
                     else:
-                        pr = pipe_call(server, body, stream=is_stream, tick=(m["kind"] == "producer"))
+                        pr = pipe_call(server, body if route == "pipe" else sbody, stream=is_stream, tick=(m["kind"] == "producer"))
                         obs = {"timed_out": pr["timed_out"], "died": repr(pr["died"]) if pr["died"] else None, "nbytes": len(pr["bytes"])}
                         try:
                             streams = httpdrv.parse_ipc_multi(pr["bytes"]) if pr["bytes"] else []
@@ -641,6 +693,9 @@ def main(tier: str, seed: int) -> int:
         "conforming_judged:pipe",
         "method_raised_judged:http",
         "method_raised_judged:pipe",
+        "perturbed_judged:shm",
+        "perturbed_judged:shmdecl",
+        "conforming_judged:shm",
     )
     chk.assumptions = [
         "the documented type mapping (README / WIRE_PROTOCOL section 4) is the declared contract; it is cross-checked against rpc_methods()",
